@@ -80,6 +80,9 @@ void MainSolver::push() {
     frameTerms.push(newFrameTerm(frames.last().getId()));
     termNames.pushScope();
     if (alreadyUnsat) { rememberLastFrameUnsat(); }
+#ifdef OPENSMT_VERIF_TRACE
+    if (veriftrace::on()) { veriftrace::emit("{\"e\":\"push\",\"id\":" + std::to_string(frames.last().getId()) + "}"); }
+#endif
 }
 
 bool MainSolver::pop() {
@@ -99,6 +102,9 @@ bool MainSolver::pop() {
     termNames.popScope();
     firstNotSimplifiedFrame = std::min(firstNotSimplifiedFrame, frames.frameCount());
     if (not isLastFrameUnsat()) { getSMTSolver().restoreOK(); }
+#ifdef OPENSMT_VERIF_TRACE
+    if (veriftrace::on()) { veriftrace::emit("{\"e\":\"pop\",\"level\":" + std::to_string(getAssertionLevel()) + "}"); }
+#endif
     return true;
 }
 
@@ -384,6 +390,9 @@ sstat MainSolver::check() {
 #endif
     if (isLastFrameUnsat()) { return s_False; }
     sstat rval = simplifyFormulas();
+#ifdef OPENSMT_VERIF_TRACE
+    bool const verifSolved = rval == s_Undef;
+#endif
 
     if (config.dump_query()) printCurrentAssertionsAsQuery();
 
@@ -400,7 +409,8 @@ sstat MainSolver::check() {
     if (veriftrace::on()) {
         veriftrace::emit(std::string("{\"e\":\"check\",\"ret\":\"") + (rval == s_True ? "sat" : rval == s_False ? "unsat" : "unknown") +
                          "\",\"early\":false,\"level\":" + std::to_string(getAssertionLevel()) +
-                         ",\"conflictFrame\":" + std::to_string(rval == s_False ? smt_solver->getConflictFrame() : 0) + "}");
+                         ",\"solved\":" + (verifSolved ? "true" : "false") + ",\"ok\":" + (smt_solver->isOK() ? "true" : "false") +
+                         ",\"conflictFrame\":" + std::to_string(rval == s_False and verifSolved ? smt_solver->getConflictFrame() : 0) + "}");
     }
 #endif
 
